@@ -152,7 +152,8 @@ def r_readonly(ctx):
 
 @rule("C17", "R5", "FLOW", "the cluster mean used by the index is the float mean of the cluster's own windows")
 def r5(ctx):
-    from . import c12
+    from . import c12, c10
+    ctx.sub(c10.r1, only=("alloc",))      # "float mean": the stacked windows are float64 whatever the input dtype (float32 input at a large offset loses the spread)
     src = mean_source(ctx.ana)
     fi = ctx.ana.func(CH)
     if src == "own":
@@ -178,6 +179,7 @@ def r6(ctx):
     # source reports the source's membership after either of them is relabelled
     ctx.sub(c13.r5, only=("deep-copy:containers.model_state.ModelState", "deep-copy:containers.model_state.ClusterParameters"))
     c09.lifecycle(ctx, {"index-state"})
+    ctx.sub(c13.r3)      # no member list is edited in place or shared through a getter: the members the index sums over are the scored model's own
     src = mean_source(ctx.ana)
     fi = ctx.ana.func(CH)
     if src == "own":
